@@ -2,6 +2,7 @@ import Amgcl.Driver.Util
 import Amgcl.Driver.DirectC
 import Amgcl.Driver.Solvers
 import Amgcl.Model.SolverGMRESC
+import Amgcl.Model.SolverCplx2
 /-!
 Handlers for the Krylov solvers at the EXACT complex value type `std::complex<Q>` (harness/h_cplx_exact.cpp): the SAME generic model
 functions of `Model/Solver{CG,BiCGStab,Richardson}.lean` and the `conj`-parametrised GMRES / FGMRES of `Model/SolverGMRESC.lean`,
@@ -12,7 +13,11 @@ executed at the carrier `CRat` (Gaussian rationals).
     cxs_richardson damping maxiter tol abstol         A PREC f x0
     cxs_gmres      side M maxiter tol abstol          A PREC f x0
     cxs_fgmres     M maxiter tol abstol               A PREC f x0
-    cxs_idrs       s maxiter                          A PREC f x0      implementation-side oracle only; the shape is validated, answer `ok`
+    cxs_lgmres     side M K maxiter tol abstol        A PREC f x0      (`always_reset` = true, a fresh object)
+    cxs_idrs       s omega smoothing replacement maxiter tol abstol   A PREC f x0 RAW
+
+`RAW` = the `s` REAL random vectors the constructor of `idrs` draws (one thread, `mt19937(0)`); the shadow vector entries are
+`math::constant<std::complex<Q>>(c) = (c, c)`; `IDRs.makeP` is the constructor's orthonormalisation.
 
 `tol`, `abstol`, `damping` are non-negative real rationals (`scalar_type = Q`); all other numbers are `re im`.
 
@@ -27,7 +32,9 @@ How the code turns complex scalars into real ones, and how that is instantiated 
   code itself.  Negative `tol` / `abstol` are therefore rejected as `bad-input` on both sides;
 * cg / bicgstab / richardson: `norm(x) = sqrt(math::norm(<x,x>))`, `math::norm` of a complex scalar = `std::abs` = `cabs`: the models' `sqrt`
   parameter is `z ↦ (rsqrt (cabs z), 0)`;
-* gmres / fgmres: `norm(x) = std::abs(sqrt(<x,x>))` and `sqrt(identity + adjoint(tmp) * tmp)` use `std::sqrt(std::complex<Q>)` = `csqrt`
+* `math::norm(ts / (norm_t * norm_s))` in `omega()` of idrs.hpp, whose VALUE is used, is the parameter `absC = z ↦ (cabs z, 0)` of
+  `IDRs.omegaFnC` (`Model/SolverCplx2.lean`);
+* gmres / fgmres / lgmres / idrs: `norm(x) = std::abs(sqrt(<x,x>))` and `sqrt(identity + adjoint(tmp) * tmp)` use `std::sqrt(std::complex<Q>)` = `csqrt`
   (libstdc++'s `__complex_sqrt` spelled out, as in the harness); the outer `std::abs` is `absK` = identity here, which is exact because
   `<x,x>` has imaginary part `0` and non-negative real part, for which `csqrt` returns `(u, 0)` with `u ≥ 0` and `cabs (u, 0) = u`.
 -/
@@ -50,6 +57,9 @@ def csqrt (z : CRat) : CRat :=
 
 /-- `sqrt(math::norm(z))` of cg / bicgstab / richardson -/
 def sqrtNorm (z : CRat) : CRat := ofReal (rsqrt (cabs z))
+
+/-- `math::norm` of a complex scalar as a `scalar_type` value -/
+def absC (z : CRat) : CRat := ofReal (cabs z)
 
 def cip : Vec CRat → Vec CRat → CRat := innerProductSerial cconj
 
@@ -132,9 +142,20 @@ def handle (op : String) (args : List String) : Option String :=
   | "cxs_fgmres" =>
     solveOpC (do let M ← pNat; let c ← pCommonC; pure ({ c with M := M } : FGMRES.Params CRat))
       (fun p => decide (1 ≤ p.M)) (fun p => FGMRES.callC cconj p cip csqrt machEpsC) (fun _ n => FGMRES.Work.fresh n) args
+  | "cxs_lgmres" =>
+    solveOpC (do let side ← Solvers.pSide; let M ← pNat; let K ← pNat; let c ← pCommonC
+                 pure ({ c with M := M, K' := K, alwaysReset := true, pside := side } : LGMRES.Params CRat))
+      (fun p => decide (1 ≤ p.M)) (fun p => LGMRES.callC cconj p cip csqrt machEpsC) (fun _ n => LGMRES.Work.fresh n) args
   | "cxs_idrs" =>
-    withArgs (do let s ← pNat; let _ ← pNat; let c ← pCallC; pure (s, c)) args
-      fun (s, c) => if decide (1 ≤ s) && c.ok && decide (s ≤ c.A.nrows) then "ok" else badInput
+    withArgs (do let s ← pNat; let om ← pNonneg; let sm ← Solvers.pBool; let rp ← Solvers.pBool; let c ← pCommonC
+                 let call ← pCallC; let raw ← pMany s pVec
+                 pure (({ c with s := s, omega := ofReal om, smoothing := sm, replacement := rp } : IDRs.Params CRat), call, raw)) args
+      fun (p, c, raw) =>
+        if decide (1 ≤ p.s) && c.ok && decide (p.s ≤ c.A.nrows) && raw.all (fun v => v.size == c.A.nrows) then
+          let rawC : List (Vec CRat) := raw.map (fun v => v.map (fun x => (⟨x, x⟩ : CRat)))
+          let Pv := IDRs.makeP cip csqrt p.s ⟨fun i => rawC.getD i #[]⟩
+          showObsC (IDRs.callC absC p cip csqrt machEpsC Pv (IDRs.Work.fresh c.A.nrows) c.toModel).1
+        else badInput
   | _ => none
 
 end Amgcl.Driver.SolversC
